@@ -8,6 +8,7 @@
     grp | op1 | op2 ...      op = kind SP path SP a SP b SP c SP d      (SP = one space)
         kind in sp tb pic (a b c d = x y cx cy), cxn (begin/end), ff (freeform with
         the single segment 0,0 -> c,d placed at origin a,b), grp (kind SP path only);
+        every kind recalculates the receiving group and its ancestors;
         path = a dash for the slide itself or child indices joined by dots;
         output: the whole slide after every addition, ending at the first error.
     ff | sx | sy | xscale | yscale | ox | oy | op1 ...
@@ -171,21 +172,21 @@ Definition ff_leaf (a b c d : Z) : res shape :=
 Definition cxn_leaf (bx by_ ex ey : Z) : shape :=
   let c := add_cxn bx by_ ex ey in Leaf (c_x c) (c_y c) (c_cx c) (c_cy c).
 
-(** path, the member to add (or the exception building it raises), recalculation. *)
-Definition gcmd := (list nat * res shape * bool)%type.
+(** path and the member to add (or the exception building it raises). *)
+Definition gcmd := (list nat * res shape)%type.
 
 Definition parse_gcmd (s : str) : option gcmd :=
   match toks s with
   | [k; p] =>
       if str_eqb k k_grp then
-        match parse_path p with Some p => Some (p, Ok (Grp gxf0 []), false) | None => None end
+        match parse_path p with Some p => Some (p, Ok (member_shape MGroup)) | None => None end
       else None
   | [k; p; a; b; c; d] =>
       match parse_path p, parse_Z a, parse_Z b, parse_Z c, parse_Z d with
       | Some p, Some a, Some b, Some c, Some d =>
-          if str_eqb k k_sp || str_eqb k k_tb || str_eqb k k_pic then Some (p, Ok (Leaf a b c d), true)
-          else if str_eqb k k_cxn then Some (p, Ok (cxn_leaf a b c d), true)
-          else if str_eqb k k_ff then Some (p, ff_leaf a b c d, false)
+          if str_eqb k k_sp || str_eqb k k_tb || str_eqb k k_pic then Some (p, Ok (Leaf a b c d))
+          else if str_eqb k k_cxn then Some (p, Ok (cxn_leaf a b c d))
+          else if str_eqb k k_ff then Some (p, ff_leaf a b c d)
           else None
       | _, _, _, _, _ => None
       end
@@ -195,9 +196,9 @@ Definition parse_gcmd (s : str) : option gcmd :=
 (** The driver first walks the path (IndexErr), then performs the addition. *)
 Definition gcmd_step (sl : slide) (c : gcmd) : res slide :=
   match c with
-  | (p, Ok new, rc) => slide_add p new rc sl
-  | (p, Err e, _) =>
-      match slide_add p (Leaf 0 0 0 0) false sl with Ok _ => Err e | Err e' => Err e' end
+  | (p, Ok new) => slide_add p new sl
+  | (p, Err e) =>
+      match slide_add p (Leaf 0 0 0 0) sl with Err IndexErr => Err IndexErr | _ => Err e end
   end.
 
 Fixpoint gcmd_trace (sl : slide) (cs : list gcmd) : list (res slide) :=
